@@ -501,12 +501,15 @@ def dataclass_init_field_names(cls):
 def dataclass_field_to_default(cls):
 
     if cls not in FIELD_TO_DEFAULT:
-        defaults = FIELD_TO_DEFAULT[cls] = {}
+        defaults = {}
         for f in dataclass_fields(cls):
             if f.default is not MISSING:
                 defaults[f.name] = f.default
             elif f.default_factory is not MISSING:
                 defaults[f.name] = f.default_factory()
+        # publish the mapping only once it is complete, so that another
+        # thread never sees (and generates code from) a partial mapping
+        FIELD_TO_DEFAULT[cls] = defaults
 
     return FIELD_TO_DEFAULT[cls]
 
